@@ -36,7 +36,7 @@ Definition islt_cmp : isltT := fun x y w =>
   match vcompare (cmp_fuel w) w x y with
   | Some Lt => (CLt true, w)
   | Some _ => (CLt false, w)
-  | None => (CStop LFuel, w)
+  | None => (CStop (LRaise msg_recursion), w)       (* RecursionError in value_compare: sort() re-raises it *)
   end.
 
 Section Sort.
